@@ -206,9 +206,12 @@ CHECKS = {
             "executable reader calls - refuses exactly the tuples with more coordinates than axes or a coordinate outside [0, dim)), "
             "C11_full_index_accepted_iff (a full tuple is accepted iff it is a valid index), C11_accepted_index_inside (the item "
             "address of an accepted index leaves room for the whole item inside the array's own extent, any shape and axis order). "
+            "C11_nonmember_refused (binding a node whose class is not a member of the union reference - or not the class of the plain "
+            "reference - leaves the reference-graph state as it was; executed against the library's raise by the `bindbad` operations of "
+            "the rg stream, also after the same class was stored through ANOTHER union). "
             "Known finding O-13 (non-atomic dict update of a nested struct) is "
             "listed in known_findings.json.",
-            "Partial: shape / length / union-membership / context / offset refusals are decision logic compared by the tie (exception class and "
+            "Partial: shape / length / context / offset refusals are decision logic compared by the tie (exception class and "
             "buffer image at the raise), not theorems.",
             "7/C11"),
     "C08": ("Lean 4 proof: two's-complement relative-offset codec (encode/decode round trip over Int), null encodings, growth as prefix "
